@@ -694,20 +694,26 @@ class InterpolatableFunction(ABC):
         # what to append to lower end
         if newMin < self._rangeMin and pointsMin > 0:
 
-            ## Point spacing to use at new lower end
-            spacing = np.abs(self._rangeMin - newMin) / pointsMin
-            # arange stops one spacing before the max value, which is what we want
-            appendPointsMin = np.arange(newMin, self._rangeMin, spacing)
+            ## pointsMin equally spaced points from newMin up to, but excluding,
+            ## the current lower end. linspace (unlike arange) cannot overshoot
+            ## the end point through rounding and so cannot duplicate it.
+            appendPointsMin = np.linspace(
+                newMin, self._rangeMin, pointsMin, endpoint=False
+            )
+            appendPointsMin = np.unique(
+                appendPointsMin[appendPointsMin < self._rangeMin]
+            )
         else:
             appendPointsMin = np.array([])
 
         # what to append to upper end
         if newMax > self._rangeMax and pointsMax > 0:
 
-            ## Point spacing to use at new upper end
-            spacing = np.abs(newMax - self._rangeMax) / pointsMax
-            appendPointsMax = np.arange(
-                self._rangeMax + spacing, newMax + spacing, spacing
+            ## pointsMax equally spaced points above the current upper end, up to
+            ## and including newMax
+            appendPointsMax = np.linspace(self._rangeMax, newMax, pointsMax + 1)[1:]
+            appendPointsMax = np.unique(
+                appendPointsMax[appendPointsMax > self._rangeMax]
             )
         else:
             appendPointsMax = np.array([])
